@@ -2,6 +2,7 @@ package props
 
 import (
 	"bytes"
+	"context"
 	"encoding/json"
 	"fmt"
 	"strings"
@@ -56,10 +57,12 @@ func (m advMove) String() string {
 }
 
 type c01Case struct {
-	Sel    string    `json:"selector"`
-	Local  []int     `json:"requestor_has"`
-	Moves  []advMove `json:"moves"`
-	Second bool      `json:"second_request"` // a second request (other DAG) is issued once the first has terminated
+	Sel     string    `json:"selector"`
+	Local   []int     `json:"requestor_has"`
+	Moves   []advMove `json:"moves"`
+	Second  bool      `json:"second_request"`           // a second request (other DAG) is issued once the first has terminated
+	PauseAt int       `json:"pause_at_block,omitempty"` // the requestor's block hook pauses the request at this block; it is resumed after the moves
+	After   []advMove `json:"after_resume,omitempty"`   // one more message, sent after the resume
 }
 
 func (c c01Case) String() string {
@@ -67,7 +70,15 @@ func (c c01Case) String() string {
 	for _, m := range c.Moves {
 		p = append(p, m.String())
 	}
-	return fmt.Sprintf("selector %s requestor has %v; adversary: %s", c.Sel, c.Local, strings.Join(p, " "))
+	ps := ""
+	if c.PauseAt > 0 {
+		var a []string
+		for _, m := range c.After {
+			a = append(a, m.String())
+		}
+		ps = fmt.Sprintf("; the requestor pauses at block %d and resumes after these messages, then: %s", c.PauseAt, strings.Join(a, " "))
+	}
+	return fmt.Sprintf("selector %s requestor has %v; adversary: %s%s", c.Sel, c.Local, strings.Join(p, " "), ps)
 }
 
 var c01Actions = map[string]graphsync.LinkAction{"P": graphsync.LinkActionPresent, "M": graphsync.LinkActionMissing, "D": graphsync.LinkActionDuplicateNotSent, "S": graphsync.LinkActionDuplicateDAGSkipped}
@@ -108,6 +119,16 @@ func c01Run(cs c01Case) *c01Obs {
 		f.AddScript(peer.ID("S"))
 		ids := [2]graphsync.RequestID{harness.MkID(1), harness.MkID(2)}
 		var res [2]*harness.ReqResult
+		if cs.PauseAt > 0 {
+			nblk, done := 0, false
+			q.GS.RegisterIncomingBlockHook(func(p peer.ID, rd graphsync.ResponseData, b graphsync.BlockData, ha graphsync.IncomingBlockHookActions) {
+				nblk++
+				if nblk == cs.PauseAt && !done {
+					done = true
+					ha.PauseRequest()
+				}
+			})
+		}
 		res[0] = q.Request(f, peer.ID("S"), w.dags[0].Root, sel.Node, ids[0])
 		vsched.Quiesce()
 		linkOf := func(m advMove) (cid.Cid, []byte) {
@@ -171,6 +192,16 @@ func c01Run(cs c01Case) *c01Obs {
 			batch = append(batch, m)
 		}
 		flush(batch, true)
+		if cs.PauseAt > 0 {
+			_ = q.GS.Unpause(context.Background(), ids[0])
+			vsched.Quiesce()
+			var ab []advMove
+			for _, m := range cs.After {
+				m.Join = true
+				ab = append(ab, m)
+			}
+			flush(ab, true)
+		}
 		for i, r := range res {
 			if r == nil {
 				continue
@@ -421,6 +452,41 @@ func runC01(c *core.Ctx) {
 			for _, m2 := range B {
 				ms := append(append(append([]advMove{}, honest...), lt...), m1, m2)
 				if !try(c01Case{Sel: "all-d10", Moves: ms, Second: true}) {
+					return
+				}
+			}
+		}
+	}
+	// family 4: the requestor pauses itself at block k while further entries of the same message are still
+	// unread, is resumed, and (optionally) gets one more message: what was left unread must not be stored or
+	// delivered unverified
+	Ar := c01Alphabet(1, false)
+	for _, k := range []int{1, 2} {
+		prefix := honest[:k]
+		var tails [][]advMove
+		for _, m1 := range A {
+			tails = append(tails, []advMove{m1})
+			if m1.Action == "P" || c.Thorough() {
+				for _, m2 := range Ar {
+					tails = append(tails, []advMove{m1, m2})
+				}
+			}
+		}
+		afters := [][]advMove{nil}
+		for _, m := range Ar {
+			afters = append(afters, []advMove{m})
+		}
+		for _, t := range tails {
+			for _, af := range afters {
+				if len(t) == 2 && len(af) > 0 && !c.Thorough() && af[0].Action != "P" {
+					continue
+				}
+				ms := append(append([]advMove{}, prefix...), t...)
+				for i := range ms {
+					ms[i].Join = i > 0
+					ms[i].Status = 0
+				}
+				if !try(c01Case{Sel: "all-d10", Moves: ms, PauseAt: k, After: af}) {
 					return
 				}
 			}
